@@ -44,15 +44,15 @@ func (f fault) String() string {
 
 // bounds of one exploration family.
 type bounds struct {
-	Name       string
-	Kinds      []string
-	MinKinds   int
-	MaxKinds   int
-	MaxSec     int
-	MaxOps     int // per section
-	MaxTotal   int // operations in the whole program
-	MustHave   []string // every configuration contains at least one of these kinds (nil: no constraint)
-	DoubleFault bool    // also enumerate a second failing attempt (await false at every position) before the successful retry
+	Name        string
+	Kinds       []string
+	MinKinds    int
+	MaxKinds    int
+	MaxSec      int
+	MaxOps      int      // per section
+	MaxTotal    int      // operations in the whole program
+	MustHave    []string // every configuration contains at least one of these kinds (nil: no constraint)
+	DoubleFault bool     // also enumerate a second failing attempt (await false at every position) before the successful retry
 }
 
 func combos(kinds []string, k int) [][]string {
